@@ -65,4 +65,49 @@ theorem C05_file_edge_idem (opt : IARF) (min : Nat) (edge : Option Nat) :
 theorem C05_indent_idem (o : IndentOpts) (ts : List ITok) (h : WellNested 0 ts) :
     indentRun o [] ts = closedForm o 0 ts := C18_column_closed_form o 0 ts h
 
+/-- what the second run reads for a whole line: every chunk now stands where the first run put it -/
+def rereadPairs (c0 : Nat) : List PairIn → List PairIn
+  | [] => []
+  | p :: ps =>
+    let c1 := spaceApply p.av0 p.forced p.minSp (p.geom c0) p.t
+    { p with origColEnd := c0 + p.len, nextOrigCol := c1 } :: rereadPairs c1 ps
+
+/-- **a whole line is a fixed point of `space_text()`**: for every sequence of decisions, forced flags, minimum widths and token
+    lengths (no virtual brace, no trailing-comment adjustment, Ignore not forced), the second run hands out the columns of the first -/
+theorem C05_line_idem (c0 : Nat) (ps : List PairIn) (hc : 0 < c0)
+    (h : ∀ p ∈ ps, p.isVbraceOpen = false ∧ p.t = TrCmt.none ∧ (p.av0 = .ignore → p.forced = false)) :
+    lineCols c0 (rereadPairs c0 ps) = lineCols c0 ps := by
+  induction ps generalizing c0 with
+  | nil => rfl
+  | cons p ps ih =>
+    obtain ⟨hv, ht, hf⟩ := h p (by simp)
+    have hcol := C19_apply_column p.av0 p.forced p.minSp (p.geom c0) rfl hv
+    -- the column the first run gives to the second chunk of the pair
+    have hc1 : spaceApply p.av0 p.forced p.minSp (p.geom c0) p.t = c0 + p.len + gapOf p.av0 p.forced p.minSp (p.geom c0) := by
+      rw [ht]; simpa [PairIn.geom] using hcol
+    have hpos : 0 < spaceApply p.av0 p.forced p.minSp (p.geom c0) p.t := by rw [hc1]; omega
+    -- the geometry the second run reads is `reread`
+    have hgeom : ({ p with origColEnd := c0 + p.len, nextOrigCol := spaceApply p.av0 p.forced p.minSp (p.geom c0) p.t } : PairIn).geom c0
+        = reread (p.geom c0) c0 (gapOf p.av0 p.forced p.minSp (p.geom c0)) := by
+      have h1 := hc1
+      simp only [PairIn.geom] at h1 ⊢
+      simp only [reread, h1]
+    have hidem := C05_space_apply_idem p.av0 p.forced p.minSp (p.geom c0) c0 hv hc hf
+    have hcol2 := C19_apply_column p.av0 p.forced p.minSp (reread (p.geom c0) c0 (gapOf p.av0 p.forced p.minSp (p.geom c0))) rfl hv
+    have hsame : spaceApply p.av0 p.forced p.minSp
+        (({ p with origColEnd := c0 + p.len, nextOrigCol := spaceApply p.av0 p.forced p.minSp (p.geom c0) p.t } : PairIn).geom c0) p.t
+        = spaceApply p.av0 p.forced p.minSp (p.geom c0) p.t := by
+      rw [hgeom, ht, hcol2, hidem]
+      rw [ht] at hc1
+      rw [hc1]
+      simp [reread, PairIn.geom]
+    simp only [rereadPairs, lineCols]
+    rw [hsame]
+    congr 1
+    exact ih _ hpos (fun q hq => h q (by simp [hq]))
+
+example : lineCols 5 (rereadPairs 5 [{ av0 := .add, forced := false, minSp := 1, len := 3, origColEnd := 8, nextOrigCol := 12, isVbraceOpen := false, prevOrigCol := 0, t := TrCmt.none },
+                                      { av0 := .remove, forced := false, minSp := 1, len := 2, origColEnd := 14, nextOrigCol := 17, isVbraceOpen := false, prevOrigCol := 0, t := TrCmt.none }])
+    = [12, 14] := by decide
+
 end Unc
